@@ -135,17 +135,27 @@ theorem takeWhile_mem_ne {set : Bytes} (h : set.elem 0x0a = false) (l : Bytes) :
   simp [mem] at hm
   simp_all
 
-/-- what a successful or failed run of `stateCode` guarantees about positions -/
-def CodeOK (s pre cur : Bytes) : TokzRes → Prop
-  | .ok toks rest pos => (∀ t ∈ toks, TokOK s t) ∧ ∃ used, cur = used ++ rest ∧ pos = posOf (pre ++ used)
+/-- nothing can be consumed at `cur`: it is empty or starts with a byte that is no space, no
+    identifier or digit character, no quote and not the start of any symbol -/
+def Stuck (T : LexTables) : Bytes → Prop
+  | [] => True
+  | c :: t => mem T.space c = false ∧ mem T.identChars c = false ∧ mem T.digits c = false ∧ mem T.quotes c = false ∧
+      firstSym T.symbols (c :: t) = none
+
+/-- what a successful or failed run of `stateCode` guarantees: exact positions, the rest is a suffix
+    of the input, and something was consumed unless nothing could be (`stuck`) -/
+def CodeOK (s pre cur : Bytes) (stuck : Prop) : TokzRes → Prop
+  | .ok toks rest pos => (∀ t ∈ toks, TokOK s t) ∧ ∃ used, cur = used ++ rest ∧ pos = posOf (pre ++ used) ∧ (used = [] → stuck)
   | .err e => ∃ pre', pre' <+: s ∧ (e.line, e.col) = lineCol pre' ∧ e.off = pre'.length
 
-theorem codeOK_continue {s pre used rest' cur : Bytes} {r : TokzRes} (hcur : cur = used ++ rest')
-    (h : CodeOK s (pre ++ used) rest' r) : CodeOK s pre cur r := by
+theorem codeOK_continue {s pre used rest' cur : Bytes} {stuck' stuck : Prop} {r : TokzRes} (hcur : cur = used ++ rest')
+    (hne : used ≠ []) (h : CodeOK s (pre ++ used) rest' stuck' r) : CodeOK s pre cur stuck r := by
   cases r with
   | ok toks rest pos =>
-    obtain ⟨h1, used', e1, e2⟩ := h
-    exact ⟨h1, used ++ used', by rw [hcur, e1, List.append_assoc], by rw [e2, List.append_assoc]⟩
+    obtain ⟨h1, used', e1, e2, _⟩ := h
+    refine ⟨h1, used ++ used', by rw [hcur, e1, List.append_assoc], by rw [e2, List.append_assoc], ?_⟩
+    intro he
+    exact absurd (List.append_eq_nil_iff.mp he).1 hne
   | err e => exact h
 
 theorem prefix_ok {s pre cur : Bytes} (hs : s = pre ++ cur) : ∃ pre', pre' <+: s ∧ ((posOf pre).line, (posOf pre).col) = lineCol pre' ∧ (posOf pre).off = pre'.length :=
@@ -155,17 +165,18 @@ theorem tok_here {s pre cur : Bytes} (hs : s = pre ++ cur) (typ : TokTyp) (val :
     TokOK s ⟨typ, val, (posOf pre).line, (posOf pre).col, tr, (posOf pre).off⟩ :=
   tokOK_at hs _ rfl rfl rfl (fun h => absurd h hne)
 
-theorem codeOK_ok {s pre cur : Bytes} {toks : List Tok} {rest : Bytes} {pos : Pos} (h1 : ∀ t ∈ toks, TokOK s t)
-    (used : Bytes) (h2 : cur = used ++ rest) (h3 : pos = posOf (pre ++ used)) : CodeOK s pre cur (.ok toks rest pos) :=
-  ⟨h1, used, h2, h3⟩
+theorem codeOK_ok {s pre cur : Bytes} {stuck : Prop} {toks : List Tok} {rest : Bytes} {pos : Pos} (h1 : ∀ t ∈ toks, TokOK s t)
+    (used : Bytes) (h2 : cur = used ++ rest) (h3 : pos = posOf (pre ++ used)) (h4 : used = [] → stuck) :
+    CodeOK s pre cur stuck (.ok toks rest pos) :=
+  ⟨h1, used, h2, h3, h4⟩
 
-theorem codeOK_err {s pre cur pre0 cur0 : Bytes} (hs : s = pre0 ++ cur0) (k : LexErrKind) :
-    CodeOK s pre cur (.err ⟨k, (posOf pre0).line, (posOf pre0).col, (posOf pre0).off⟩) := prefix_ok hs
+theorem codeOK_err {s pre cur pre0 cur0 : Bytes} {stuck : Prop} (hs : s = pre0 ++ cur0) (k : LexErrKind) :
+    CodeOK s pre cur stuck (.err ⟨k, (posOf pre0).line, (posOf pre0).col, (posOf pre0).off⟩) := prefix_ok hs
 
 attribute [local irreducible] CodeOK in
 theorem stateCode_pos (T : LexTables) (hT : TagTablesOK T = true) (s : Bytes) :
     ∀ (n : Nat) (cur pre : Bytes) (acc : List Tok), cur.length ≤ n → s = pre ++ cur → (∀ t ∈ acc, TokOK s t) →
-      CodeOK s pre cur (stateCode T cur (posOf pre) acc) := by
+      CodeOK s pre cur (Stuck T cur) (stateCode T cur (posOf pre) acc) := by
   have hT' := hT
   simp only [TagTablesOK, Bool.and_eq_true, Bool.not_eq_true', List.all_eq_true] at hT'
   obtain ⟨⟨⟨⟨hsym, hidd⟩, hid⟩, hdig⟩, hquo⟩ := hT'
@@ -176,20 +187,20 @@ theorem stateCode_pos (T : LexTables) (hT : TagTablesOK T = true) (s : Bytes) :
     have : cur = [] := List.eq_nil_of_length_eq_zero (by omega)
     subst this
     rw [stateCode.eq_def]
-    exact codeOK_ok hacc [] (by simp) (by simp)
+    exact codeOK_ok hacc [] (by simp) (by simp) (fun _ => trivial)
   | succ n ih =>
     intro cur pre acc hl hs hacc
     -- one step: consume `used` (no newline), push `acc'`, continue on `rest'`
     cases cur with
     | nil =>
       rw [stateCode.eq_def]
-      exact codeOK_ok hacc [] (by simp) (by simp)
+      exact codeOK_ok hacc [] (by simp) (by simp) (fun _ => trivial)
     | cons c t =>
       have go : ∀ (used rest' : Bytes) (acc' : List Tok), c :: t = used ++ rest' → used ≠ [] → (∀ x ∈ used, x ≠ 0x0a) →
-          (∀ t ∈ acc', TokOK s t) → CodeOK s pre (c :: t) (stateCode T rest' ((posOf pre).adv used.length) acc') := by
+          (∀ t ∈ acc', TokOK s t) → CodeOK s pre (c :: t) (Stuck T (c :: t)) (stateCode T rest' ((posOf pre).adv used.length) acc') := by
         intro used rest' acc' hcur hne hnl hacc'
         rw [← posOf_append pre used hnl]
-        apply codeOK_continue hcur
+        apply codeOK_continue hcur hne
         apply ih
         · have : (c :: t).length = used.length + rest'.length := by rw [hcur, List.length_append]
           have : 0 < used.length := List.length_pos_iff.mpr hne
@@ -266,7 +277,7 @@ theorem stateCode_pos (T : LexTables) (hT : TagTablesOK T = true) (s : Bytes) :
                   · exact tokc _ _ _ (by first | decide | (split <;> decide))
                   · exact hacc _ h
             · rename_i h0
-              refine codeOK_ok ?_ (c :: t.takeWhile (mem T.digits)) ?_ ?_
+              refine codeOK_ok ?_ (c :: t.takeWhile (mem T.digits)) ?_ ?_ (by simp)
               · intro t' ht'
                 rcases List.mem_cons.1 ht' with rfl | h
                 · exact tokc _ _ _ (by first | decide | (split <;> decide))
@@ -326,10 +337,11 @@ theorem stateCode_pos (T : LexTables) (hT : TagTablesOK T = true) (s : Bytes) :
                   · exact hacc _ h
                 by_cases hend : List.elem sym T.enders = true
                 · rw [if_pos hend]
-                  exact codeOK_ok htok sym hpf (posOf_append pre sym hsnl).symm
+                  exact codeOK_ok htok sym hpf (posOf_append pre sym hsnl).symm (fun h => absurd h hne)
                 · rw [if_neg hend]
                   exact go sym _ _ hpf hne hsnl htok
-              · exact codeOK_ok hacc [] (by simp) (by simp)
+              · rename_i hfs
+                exact codeOK_ok hacc [] (by simp) (by simp) (fun _ => ⟨by simpa using hsp, by simpa using hidc, by simpa using hdg, by simpa using hqu, hfs⟩)
 
 theorem scanComment_shape (eof : Option UInt8) (close : Bytes) :
     ∀ (n : Nat) (t : Bytes) (k : Nat) (rest2 : Bytes) (m : Nat), t.length ≤ n → scanComment eof close t k = .ok rest2 m →
@@ -370,7 +382,9 @@ theorem scanComment_shape (eof : Option UInt8) (close : Bytes) :
 
 /-- the markers skipped by the text loop have the widths the code adds and hold no newline -/
 def MarkersOK (T : LexTables) : Bool :=
-  VerbTablesOK T && !T.verbStart.elem 0x0a && !T.verbEnd.elem 0x0a && !T.commentOpen.elem 0x0a && !T.commentClose.elem 0x0a
+  VerbTablesOK T && !T.verbStart.elem 0x0a && !T.verbEnd.elem 0x0a && !T.commentOpen.elem 0x0a && !T.commentClose.elem 0x0a &&
+  -- progress: the comment opener is not empty, and every tag opener starts with a symbol
+  T.commentOpen != [] && T.openers.all (fun o => T.symbols.any (fun sym => sym != [] && sym.isPrefixOf o))
 
 /-- the bookkeeping of `run` is exact: `start` is just behind `pre`, `pos` just behind the pending text -/
 def RunInv (s rest : Bytes) (st : RunSt) : Prop :=
@@ -380,7 +394,7 @@ def RunInv (s rest : Bytes) (st : RunSt) : Prop :=
 def LexOK (s : Bytes) : LexRes → Prop
   | .ok toks => ∀ t ∈ toks, TokOK s t
   | .err e => ∃ pre', pre' <+: s ∧ (e.line, e.col) = lineCol pre' ∧ e.off = pre'.length
-  | .hang => True
+  | .hang => False   -- the Go loop would spin without consuming input
 
 /-- after `flush` nothing is pending and the pending text has become an exact token -/
 theorem flush_inv {s rest : Bytes} {st : RunSt} (h : RunInv s rest st) :
@@ -424,9 +438,7 @@ theorem finish_ok {s rest : Bytes} {st : RunSt} (h : RunInv s rest st) : LexOK s
 theorem lexOK_err {s pre0 cur0 : Bytes} (hs : s = pre0 ++ cur0) (k : LexErrKind) :
     LexOK s (.err ⟨k, (posOf pre0).line, (posOf pre0).col, (posOf pre0).off⟩) := prefix_ok hs
 
-theorem lexOK_hang {s : Bytes} : LexOK s .hang := trivial
-
-theorem lexOK_of_code {s pre cur : Bytes} {e : LexErr} (h : CodeOK s pre cur (.err e)) : LexOK s (.err e) := h
+theorem lexOK_of_code {s pre cur : Bytes} {stuck : Prop} {e : LexErr} (h : CodeOK s pre cur stuck (.err e)) : LexOK s (.err e) := h
 
 attribute [local irreducible] LexOK in
 theorem run_step (T : LexTables) (hT : TagTablesOK T = true) (hM : MarkersOK T = true) (s rest : Bytes) (st : RunSt)
@@ -434,7 +446,12 @@ theorem run_step (T : LexTables) (hT : TagTablesOK T = true) (hM : MarkersOK T =
     (hinv : RunInv s rest st) : LexOK s (run T rest st) := by
   have hM' := hM
   simp only [MarkersOK, VerbTablesOK, Bool.and_eq_true, Bool.not_eq_true', beq_iff_eq, bne_iff_ne] at hM'
-  obtain ⟨⟨⟨⟨⟨⟨⟨hw1, hw2⟩, _⟩, _⟩, hvs⟩, hve⟩, hco⟩, hcc⟩ := hM'
+  obtain ⟨⟨⟨⟨⟨⟨⟨⟨⟨hw1, hw2⟩, hvs0⟩, hve0⟩, hvs⟩, hve⟩, hco⟩, hcc⟩, hco0⟩, hop⟩ := hM'
+  have dropLt : ∀ (m : Bytes), m ≠ [] → m.isPrefixOf rest = true → (rest.drop m.length).length < rest.length := by
+    intro m hm hp
+    obtain ⟨r, hr⟩ := List.isPrefixOf_iff_prefix.mp hp
+    have : 0 < m.length := List.length_pos_iff.mpr hm
+    rw [← hr]; simp; omega
   have nl : ∀ (m : Bytes), m.elem 0x0a = false → ∀ c ∈ m, c ≠ 0x0a := by
     intro m hm c hc he; subst he; simp at hm; exact hm hc
   obtain ⟨pre, hs, f1, f2, f3, f4, f5⟩ := flush_inv hinv
@@ -452,20 +469,16 @@ theorem run_step (T : LexTables) (hT : TagTablesOK T = true) (hM : MarkersOK T =
   by_cases c1 : (st.inVerb && T.verbEnd.isPrefixOf rest) = true
   · rw [if_pos c1]
     simp only [Bool.and_eq_true] at c1
-    split
-    · rename_i hlt
-      rw [hw2] at hlt ⊢
-      exact skipM T.verbEnd false c1.2 hve hlt
-    · exact lexOK_hang
+    have hlt := dropLt T.verbEnd hve0 c1.2
+    rw [hw2, if_pos hlt]
+    exact skipM T.verbEnd false c1.2 hve hlt
   · rw [if_neg c1]
     by_cases c2 : (!st.inVerb && T.verbStart.isPrefixOf rest) = true
     · rw [if_pos c2]
       simp only [Bool.and_eq_true] at c2
-      split
-      · rename_i hlt
-        rw [hw1] at hlt ⊢
-        exact skipM T.verbStart true c2.2 hvs hlt
-      · exact lexOK_hang
+      have hlt := dropLt T.verbStart hvs0 c2.2
+      rw [hw1, if_pos hlt]
+      exact skipM T.verbStart true c2.2 hvs hlt
     · rw [if_neg c2]
       by_cases c3 : (!st.inVerb && T.commentOpen.isPrefixOf rest) = true
       · rw [if_pos c3]
@@ -476,9 +489,11 @@ theorem run_step (T : LexTables) (hT : TagTablesOK T = true) (hM : MarkersOK T =
         · rename_i rest2 m hsc
           rw [hd] at hsc
           obtain ⟨body, e1, e2, e3⟩ := scanComment_shape T.eofByte T.commentClose r.length r _ rest2 m (Nat.le_refl _) hsc
-          split
-          · rename_i hlt
-            apply ih _ _ hlt
+          have hlt : rest2.length < rest.length := by
+            have : 0 < T.commentOpen.length := List.length_pos_iff.mpr hco0
+            rw [← hr, e1]; simp; omega
+          rw [if_pos hlt]
+          · apply ih _ _ hlt
             have hused : ∀ c ∈ T.commentOpen ++ body ++ T.commentClose, c ≠ 0x0a := by
               intro c hc
               simp only [List.mem_append] at hc
@@ -492,7 +507,6 @@ theorem run_step (T : LexTables) (hT : TagTablesOK T = true) (hM : MarkersOK T =
               rw [e2]; simp; omega
             rw [hm]
             exact this
-          · exact lexOK_hang
         · rename_i k _
           rw [f1]
           exact lexOK_err hs k
@@ -504,13 +518,37 @@ theorem run_step (T : LexTables) (hT : TagTablesOK T = true) (hM : MarkersOK T =
           cases hsc : stateCode T rest (posOf pre) st.flush.toks with
           | ok toks rest2 pos =>
             rw [hsc] at hcode
-            obtain ⟨h1, used, e1, e2⟩ := hcode
+            obtain ⟨h1, used, e1, e2, e3⟩ := hcode
             simp only []
-            split
-            · rename_i hlt
-              apply ih _ _ hlt
-              exact ⟨pre ++ used, [], by simp [hs, e1], by simp [e2], by simp [e2], rfl, h1⟩
-            · exact lexOK_hang
+            have hne : used ≠ [] := by
+              intro he
+              have hst := e3 he
+              -- an opener starts with a symbol: the tokenizer cannot be stuck there
+              simp only [Bool.and_eq_true, isOpener, List.any_eq_true] at c4
+              obtain ⟨o, ho, hpo⟩ := c4.2
+              obtain ⟨sym, hsym, hps⟩ := List.any_eq_true.mp (List.all_eq_true.mp hop o ho)
+              simp only [Bool.and_eq_true, bne_iff_ne, ne_eq] at hps
+              have hp2 : sym.isPrefixOf rest = true :=
+                List.isPrefixOf_iff_prefix.mpr ((List.isPrefixOf_iff_prefix.mp hps.2).trans (List.isPrefixOf_iff_prefix.mp hpo))
+              cases hrest : rest with
+              | nil =>
+                rw [hrest] at hp2
+                cases sym with
+                | nil => exact hps.1 rfl
+                | cons a as => simp [List.isPrefixOf] at hp2
+              | cons c t =>
+                rw [hrest] at hst hp2
+                have hnone := hst.2.2.2.2
+                unfold firstSym at hnone
+                rw [List.find?_eq_none] at hnone
+                have := hnone sym hsym
+                simp [hps.1, hp2] at this
+            have hlt : rest2.length < rest.length := by
+              have : 0 < used.length := List.length_pos_iff.mpr hne
+              rw [e1]; simp; omega
+            rw [if_pos hlt]
+            apply ih _ _ hlt
+            exact ⟨pre ++ used, [], by simp [hs, e1], by simp [e2], by simp [e2], rfl, h1⟩
           | err e =>
             rw [hsc] at hcode
             exact lexOK_of_code hcode
